@@ -335,7 +335,7 @@ func run13(c *fw.Ctx) {
 
 // evalSessions: fragments through one Eval; DisableBuiltin may be called by the embedder between fragments.
 func evalSessions(c *fw.Ctx) {
-	c.Family("eval", "sessions of <= 3 steps over {fragment using N, fragment declaring N, fragment using another name, embedder disables N}")
+	c.Family("eval", "sessions of <= 3 steps over {fragment using N, fragment declaring N, fragment using another name, embedder disables N} x another builtin disabled before the session or not")
 	type step struct {
 		src     string
 		disable bool
@@ -393,9 +393,15 @@ func evalOne(c *fw.Ctx, n string, steps []struct {
 		return
 	}
 	c.Nontrivial()
-	for _, noopt := range []bool{false, true} {
+	for mode := 0; mode < 4; mode++ {
+		noopt := mode&1 == 1
 		resetCalls()
 		st := ugo.NewSymbolTable()
+		if mode&2 == 2 {
+			// the embedder has disabled some other builtin before the session starts: the set of disabled names
+			// exists already when N is added to it later
+			st.DisableBuiltin("isFunction")
+		}
 		ev := ugo.NewEval(ugo.CompilerOptions{SymbolTable: st, NoOptimize: noopt}, ugo.Map{})
 		disabled := false
 		declared := false // the session declared N itself before
